@@ -593,3 +593,115 @@ pub fn gen_c04(out: &mut impl Write, seed: u64, thorough: bool) {
         }
     }
 }
+
+/// cheapest cost parameters each back end accepts
+pub fn min_params(be: Be) -> Vec<u8> {
+    if be.version() % 2 == 1 {
+        1u32.to_be_bytes().to_vec()
+    } else {
+        let mut p = (8192u64).to_be_bytes().to_vec();
+        p.extend(1u32.to_be_bytes());
+        p.extend(1u32.to_be_bytes());
+        p
+    }
+}
+pub fn pw_template_pub(be: Be, params: &[u8]) -> String {
+    pw_template(be, Kind::Local, params, 32)
+}
+
+/// C16: scripted random source (rng build) + freshness over many operations (normal build)
+pub fn gen_c16(out: &mut impl Write, seed: u64, thorough: bool, rng_build: bool) {
+    let mut r = Rng::new(seed ^ 0xC16);
+    if !rng_build {
+        let n = if thorough { 100000 } else { 10000 };
+        for be in ALL_BE {
+            for what in ["encrypt", "pie", "lkey"] {
+                writeln!(out, "o.fresh {} {what} {n}", be.name()).unwrap();
+            }
+            writeln!(out, "o.fresh {} pw {}", be.name(), n / 10).unwrap();
+            writeln!(out, "o.fresh {} seal {}", be.name(), if be == Be::V1 { n / 20 } else { n / 5 }).unwrap();
+            if be != Be::V1 {
+                writeln!(out, "o.fresh {} skey {}", be.name(), n / 5).unwrap();
+            }
+        }
+        return;
+    }
+    let src = |answers: &[Option<Vec<u8>>]| -> String {
+        if answers.is_empty() { return ".".into(); }
+        answers.iter().map(|a| match a { Some(b) => hex(b), None => "!".into() }).collect::<Vec<_>>().join(",")
+    };
+    for be in [Be::V1, Be::V2, Be::V3, Be::V4] {
+        let nd = if be == Be::V2 { 24 } else { 32 };
+        let (_psk, ppk) = pke_pair(be);
+        let reps = if thorough { 30 } else { 6 };
+        for i in 0..reps {
+            let key = r.bytes(32);
+            let msg = r.pattern([0usize, 5, 40][i % 3]);
+            let f = if i % 2 == 0 { vec![] } else { r.bytes(5) };
+            let a = if be.has_aad() && i % 2 == 1 { r.bytes(4) } else { vec![] };
+            let n = match i % 4 { 0 => vec![0u8; nd], 1 => vec![0xff; nd], _ => r.bytes(nd) };
+            // success, failure at the (only) draw, wrong answer sizes are impossible for a real RNG and not generated
+            writeln!(out, "rng.encrypt {} {} {} {} {} {}", be.name(), src(&[Some(n.clone())]), hex(&key), hex(&msg), hex(&f), hex(&a)).unwrap();
+            writeln!(out, "rng.encrypt {} {} {} {} {} {}", be.name(), src(&[None]), hex(&key), hex(&msg), hex(&f), hex(&a)).unwrap();
+            for k in kinds() {
+                if k == Kind::Secret && be == Be::V1 && i > 0 { continue; }
+                let kk = if k == Kind::Local { r.bytes(32) } else { gen_secret(be) };
+                let wk = r.bytes(32);
+                let pn = r.bytes(32);
+                writeln!(out, "rng.pie {} {} {} {} {}", be.name(), src(&[Some(pn)]), k.name(), hex(&wk), hex(&kk)).unwrap();
+                writeln!(out, "rng.pie {} {} {} {} {}", be.name(), src(&[None]), k.name(), hex(&wk), hex(&kk)).unwrap();
+                let params = small_params(be, &mut r);
+                let donor = pw_template(be, k, &params, 32);
+                let (sl, nl) = if be.version() % 2 == 1 { (32, 16) } else { (16, 24) };
+                let (salt, nonce) = (r.bytes(sl), r.bytes(nl));
+                let pass = r.bytes_in(0, 12);
+                // failure injected at every draw index of the operation
+                writeln!(out, "rng.pw {} {} {} {} {} {}", be.name(), src(&[Some(salt.clone()), Some(nonce.clone())]), k.name(), hex(&pass), hex(donor.as_bytes()), hex(&kk)).unwrap();
+                writeln!(out, "rng.pw {} {} {} {} {} {}", be.name(), src(&[None, Some(nonce.clone())]), k.name(), hex(&pass), hex(donor.as_bytes()), hex(&kk)).unwrap();
+                writeln!(out, "rng.pw {} {} {} {} {} {}", be.name(), src(&[Some(salt.clone()), None]), k.name(), hex(&pass), hex(donor.as_bytes()), hex(&kk)).unwrap();
+            }
+            // key sealing: ephemeral randomness; v3 rejection sampling with rejected candidates before success / before failure
+            let lk = r.bytes(32);
+            let rnd: Vec<Option<Vec<u8>>> = match be.version() {
+                1 => vec![Some(r.bytes(512))],
+                3 => {
+                    let mut ok = r.bytes(48); ok[0] &= 0x7f;
+                    match i % 3 { 0 => vec![Some(ok)], 1 => vec![Some(vec![0xff; 48]), Some(ok)], _ => vec![Some(vec![0u8; 48]), Some(vec![0xff; 48]), Some(ok)] }
+                }
+                _ => vec![Some(r.bytes(32))],
+            };
+            if be != Be::V1 || i < 2 {
+                writeln!(out, "rng.seal {} {} {} {}", be.name(), src(&rnd), hex(&ppk), hex(&lk)).unwrap();
+                for fail_at in 0..rnd.len() {
+                    let mut s2 = rnd.clone();
+                    s2[fail_at] = None;
+                    writeln!(out, "rng.seal {} {} {} {}", be.name(), src(&s2), hex(&ppk), hex(&lk)).unwrap();
+                }
+            }
+            writeln!(out, "rng.lkey {} {}", be.name(), src(&[Some(r.bytes(32))])).unwrap();
+            writeln!(out, "rng.lkey {} {}", be.name(), src(&[None])).unwrap();
+            if be != Be::V1 {
+                let seed_ans: Vec<Option<Vec<u8>>> = if be.version() == 3 {
+                    let mut ok = r.bytes(48); ok[0] &= 0x7f;
+                    if i % 2 == 0 { vec![Some(ok)] } else { vec![Some(vec![0xff; 48]), Some(ok)] }
+                } else { vec![Some(r.bytes(32))] };
+                writeln!(out, "rng.skey {} {}", be.name(), src(&seed_ans)).unwrap();
+                for fail_at in 0..seed_ans.len() {
+                    let mut s2 = seed_ans.clone();
+                    s2[fail_at] = None;
+                    writeln!(out, "rng.skey {} {}", be.name(), src(&s2)).unwrap();
+                }
+            }
+        }
+    }
+}
+
+/// C17: shared keys under concurrency
+pub fn gen_c17(out: &mut impl Write, seed: u64, thorough: bool) {
+    for be in ALL_BE {
+        for (k, threads) in [2usize, 4, 8, 16].iter().enumerate() {
+            let iters = if be == Be::V1 { if thorough { 100 } else { 20 } } else if thorough { 5000 } else { 600 };
+            writeln!(out, "o.conc {} {} {} {}", be.name(), threads, iters, seed.wrapping_add(k as u64)).unwrap();
+        }
+    }
+}
